@@ -37,6 +37,9 @@
 (*     return of the extracted policy.                                                   *)
 (*                                                                                      *)
 (* Modes (IOEnv.MODE):                                                                  *)
+(*   "chain"   ladders of a few hundred rungs given structurally (see LadderValues): emits *)
+(*             the exact optimal value of every rung and the exact return of the policy  *)
+(*             the real code returned.                                                  *)
 (*   "oracle"  one step per instance: emits V*, the optimal initial value, the filter.   *)
 (*   "mc"      explores *every* behaviour of (R): all initial orders, and all action /   *)
 (*             successor permutations when the flags are on (= all seeds), for every     *)
@@ -277,14 +280,55 @@ Init ==
   /\ cfg \in CfgSet(Batch[iid])
   /\ phase = "init"
   /\ inits = <<>>
-  /\ nodes = [s \in St(Batch[iid]) |-> Absent(Batch[iid])]
+  /\ nodes = IF Mode = "chain" THEN <<>> ELSE [s \in St(Batch[iid]) |-> Absent(Batch[iid])]
   /\ cur = 0 /\ lastZ = {} /\ l = 0 /\ hist = <<>> /\ note = <<>>
   \* trace mode: V* was computed by the oracle run of this module on the same instance; it is re-certified
   \* by the optimality equation (InstanceOK) instead of being enumerated again for every recorded run
-  /\ vstar = IF Mode = "trace" THEN [s \in St(Batch[iid]) |-> RNorm(Batch[iid].vs[s])] ELSE OptimalValue(Batch[iid])
+  /\ vstar = IF Mode = "trace" THEN [s \in St(Batch[iid]) |-> RNorm(Batch[iid].vs[s])]
+             ELSE IF Mode = "chain" THEN [i \in 1..Len(Batch[iid].gs) |-> OptimalValue(Batch[iid].gs[i])]
+             ELSE OptimalValue(Batch[iid])
 
 OracleStep ==
   /\ Mode = "oracle" /\ phase = "init" /\ phase' = "done"
+  /\ UNCHANGED <<iid, cfg, inits, nodes, cur, lastZ, l, vstar, hist, note>>
+
+\* ------------------------------------------------------------------ ladders (mode "chain")
+\* A ladder is a LARGE undiscounted MDP given structurally: n copies ("rungs") of small gadget MDPs m.gs (copy k uses
+\* gadget ((k-1) mod Len(gs)) + 1); a gadget has one non-absorbing state (the rung, its only initial state) and one
+\* absorbing exit, which in the ladder is the next rung (the exit of rung n is the absorbing goal).  Every step
+\* either stays on the rung or climbs, so the value of rung k is the gadget value of rung k plus the value of rung
+\* k+1: optimal values and the exact return of any stationary policy are sums over the rungs of the gadget oracles.
+\* The step-by-step machine is not run (a revision covers hundreds of states); these runs are judged on the clauses.
+Gad(m, k)   == m.gs[((k - 1) % Len(m.gs)) + 1]
+GIdx(m, k)  == ((k - 1) % Len(m.gs)) + 1
+Entry(g)    == CHOOSE s \in St(g) : g.p0[s] = g.ID
+\* number of rungs j <= x that use gadget g (rungs g, g + G, g + 2G, ...)
+UpTo(m, x, g) == IF x < g THEN 0 ELSE ((x - g) \div Len(m.gs)) + 1
+\* <<value of rung 1, ..., value of rung n>>: rung k is worth the gadget values of the rungs k..n
+LadderValues(m, gv) ==
+  LET e == [g \in 1..Len(m.gs) |-> gv[g][Entry(m.gs[g])]] IN
+  [k \in 1..m.n |-> RSumTo([g \in 1..Len(m.gs) |-> RScale(UpTo(m, m.n, g) - UpTo(m, k - 1, g), e[g])], Len(m.gs))]
+\* the policy the real code returned: m.pols = <<[g, pol, cnt]>>: cnt rungs of gadget g play support pol (uniformly)
+LW(g, sp) == [s \in NonAbs(g) |-> [a \in Ac(g) |-> IF a \in sp[s] THEN 6 \div Cardinality(sp[s]) ELSE 0]]
+RECURSIVE LadderReturn(_, _)
+LadderReturn(m, i) ==
+  IF i = 0 THEN <<0, 1>>
+  ELSE LET e  == m.pols[i]
+           g  == m.gs[e.g]
+           pv == PolicyValue(g, LW(g, [s \in NonAbs(g) |-> {a \in Ac(g) : e.pol[s][a] = 1}]), 6)
+       IN RAdd(RScale(e.cnt, pv[Entry(g)]), LadderReturn(m, i - 1))
+LadderOK(m) ==
+  /\ m.n >= 1 /\ Len(m.gs) >= 1 /\ m.hc >= 0                   \* the constant heuristic hc bounds values that are <= 0
+  /\ \A i \in 1..Len(m.gs) : LET g == m.gs[i] IN
+        /\ WF(g) /\ g.GN = g.GD /\ Cardinality(NonAbs(g)) = 1 /\ Cardinality(ExplAbs(g)) = 1
+        /\ \E s \in NonAbs(g) : g.p0[s] = g.ID
+        /\ \A s \in St(g) : Avail(g, s) # {}
+        /\ Proper(g)
+        /\ \A s \in NonAbs(g) : \A a \in Avail(g, s) : \A t \in St(g) : g.P[s][a][t] > 0 => g.R[s][a][t] <= 0
+  /\ m.polok = 1 => /\ \A i \in 1..Len(m.pols) : m.pols[i].g \in 1..Len(m.gs) /\ m.pols[i].cnt >= 1
+                    /\ SumTo([i \in 1..Len(m.pols) |-> m.pols[i].cnt], Len(m.pols)) = m.n
+ChainStep ==
+  /\ Mode = "chain" /\ phase = "init" /\ phase' = "done"
   /\ UNCHANGED <<iid, cfg, inits, nodes, cur, lastZ, l, vstar, hist, note>>
 
 Note(w, x) == [w |-> w, i |-> l + 1, x |-> x]
@@ -375,7 +419,7 @@ Terminate ==
 \* terminal states stutter, so that a deadlock is a stuck non-terminal state of the algorithm
 Halt == phase \in {"done", "cut", "reject"} /\ UNCHANGED vars
 
-Next == OracleStep \/ StartMC \/ StartTrace \/ ExpandMC \/ ExpandTrace \/ Revise \/ Terminate \/ Halt
+Next == OracleStep \/ ChainStep \/ StartMC \/ StartTrace \/ ExpandMC \/ ExpandTrace \/ Revise \/ Terminate \/ Halt
 Spec == Init /\ [][Next]_vars
 
 \* ------------------------------------------------------------------ the extracted policy, judged exactly
@@ -405,6 +449,11 @@ Emit ==
   phase \in {"done", "cut", "reject"} =>
     IF Mode = "oracle" THEN
       PrintT(ToJson([kind |-> "oracle", iid |-> iid, v |-> vstar, vinit |-> VInit, filter |-> Filter(M)]))
+    ELSE IF Mode = "chain" THEN
+      LET lv  == LadderValues(M, vstar)
+          ret == IF M.polok = 1 THEN LadderReturn(M, Len(M.pols)) ELSE UNAV
+      IN PrintT(ToJson([kind |-> "chain", iid |-> iid, tag |-> M.tag, lv |-> lv, gv |-> vstar, ret |-> ret,
+                        polopt |-> IF M.polok = 1 /\ ret = lv[1] THEN 1 ELSE 0]))
     ELSE IF Mode = "mc" THEN
       (IF phase = "done" /\ KeepHist THEN
          PrintT(ToJson([kind |-> "mc", iid |-> iid, hk |-> cfg.hk, inits |-> inits, its |-> l, hist |-> hist,
@@ -430,6 +479,7 @@ BellmanCertified(m, V) ==
                     ELSE IsFin(V[s]) /\ V[s] = RMaxSet({QFromV(m, V, s, a) : a \in Avail(m, s)})
 InstanceOK ==
   phase = "init" =>
+   IF Mode = "chain" THEN LadderOK(M) ELSE
      /\ WF(M) /\ LevOK(M) /\ NNonAbs(M) <= 3
      /\ \A s \in St(M) : Avail(M, s) # {}
      /\ IF Mode = "trace" THEN BellmanCertified(M, vstar) ELSE (Discounted(M) \/ Proper(M))
